@@ -338,9 +338,18 @@ class NodeCtx:
             self._ret(st, sret, self.fresh_content(eng, st, info['length'], info['atoms'], info['derived']))
             return None
         self._getitem_next_stub = s_getitem_next
+
+        def s_referentially_equal(eng, fr, ins, st, name, argv):
+            # two opaque contents are referentially equal iff they are the same object
+            other = eng.load(st, argv[1], '%"class.awkward::Content"*', fr.mod, 'stub')
+            a = [q.obj for g, q in ptr_cases(argv[0]) if q.obj is not None]
+            b = [q.obj for g, q in ptr_cases(other) if q.obj is not None]
+            return BV(1 if (len(a) == 1 and a == b) else 0, 1)
+        self._refeq = s_referentially_equal
         return {'vf$slot%d' % K['length']: s_length, 'vf$slot%d' % K['rnw']: s_rnw, 'vf$slot%d' % K['nothing']: s_nothing,
                 'vf$slot%d' % self.slot('5carryERKNS_7IndexOfIlEEb'): s_carry, 'vf$slot%d' % self.slot('12shallow_copyEv'): s_shallow_copy,
                 'vf$slot%d' % self.slot('12getitem_nextERKSt10shared_ptrINS_9SliceItemEERKNS_5SliceERKNS_7IndexOfIlEE'): s_getitem_next,
+                'vf$slot%d' % self.slot('19referentially_equalERKSt10shared_ptr'): s_referentially_equal,
                 'vf$slot%d' % self.slot('6cachesERSt6vector'): stub_noop,                 # an opaque content holds no virtual-array caches
                 'vf$slot%d' % self.slot('7kernelsEv'): (lambda eng, fr, ins, st, name, argv: BV(0, 32))}
 
